@@ -170,7 +170,7 @@ func typeKind(t types.Type) string {
 }
 
 func scanGlobals() (*globalsResult, error) {
-	root := repoRoot()
+	root := repoRoot
 	gomod, err := os.ReadFile(filepath.Join(root, "go.mod"))
 	if err != nil {
 		return nil, err
